@@ -130,8 +130,8 @@ def run_tie(run, tier, seed, replay=None):
     else:
         corp = corpus() + [d for d, _ in c01e.corpus()] + c01f.corpus()
         gen = [D.gen_design(core.rng(seed, "C11", "e-designs", k), size=core.rng(seed, "C11", "e-size", k).choice([1, 2, 2, 3]))
-               for k in range(130 if quick else 4000)]
-        designs = corp + gen + c01e.array_ref_designs(seed, 12 if quick else 300) + c01f.nested_designs(seed, 36 if quick else 600)
+               for k in range(130 if quick else 2500)]
+        designs = corp + gen + c01e.array_ref_designs(seed, 12 if quick else 200) + c01f.nested_designs(seed, 36 if quick else 400)
         ncorp = len(corp)
     jobs = [dict(source="design", design=d) for d in designs]
     outs = core.run_worker_sharded("c11", jobs, timeout=1800)
@@ -182,7 +182,7 @@ def run_tie(run, tier, seed, replay=None):
                            impl=outs[i], failing_cases=sum(1 for j in rest if code[j] == code[i])), found_input=False)
     if replay is None:
         run.sample(dict(stream=STREAM, design=designs[ncorp + 1] if n > ncorp + 1 else designs[0]))
-        if len(tied) < (100 if quick else 2500):
+        if len(tied) < (100 if quick else 1800):
             run.violation("C11:coverage:model_roundtrip", f"only {len(tied)} designs tied the model's package to the implementation's",
                           dict(kind="coverage"), found_input=False)
     if STREAM in run.coverage.get("streams", {}):
